@@ -388,7 +388,7 @@ func genFragmentQuery(r *hx.Rand, depth int) qdef {
 // genUniverse: 3 static groups, then 0-5 query groups; fragmentOnly for the streams whose cases evaluate a
 // group on more than one contact (sprints)
 func genUniverse(r *hx.Rand, fragmentOnly bool) *uniSpec {
-	u := &uniSpec{MaxChars: hx.Pick(r, []int{640, 640, 8, 5, 1, 12}), UseLoc: r.Chance(2, 3)}
+	u := &uniSpec{MaxChars: hx.Pick(r, []int{640, 640, 8, 5, 1, 12, 0}), UseLoc: r.Chance(2, 3)}
 	for i := 0; i < 3; i++ {
 		u.Groups = append(u.Groups, groupSpec{Name: fmt.Sprintf("S%d", i)})
 	}
